@@ -6,11 +6,14 @@ Theorems: coq/Properties/C15.v.  Ties (correspondence by execution):
            vs Model.parse_all at binary64 (every field of every CellMCNP, the
            skipped list, or the exception class)
   split  : MIP.mip.cellcard.split on LIKE cards  vs  Model.split_like
-Independent oracles (sweep): (1) the written file of each LIKE deck against
-the written file of its explicit expansion, the expansion being done by the
-generator on the abstract deck; (2) the parsed cells of both decks field by
-field, plus the generator's own reading of get_cells and of the geometry;
-(3) geomcheck at sample points on the LIKE deck.'''
+Independent oracles (sweep): (0) a corpus of minimised LIKE decks with their
+hand-written expansions; (1) the written file of each LIKE deck against the
+written file of its explicit expansion, the expansion being done by the
+generator on the abstract deck (copy the resolved base record, override the
+listed keys, importance per particle, a void copy has no density); (2) the
+parsed cells of both decks field by field, plus the generator's own reading
+of get_cells and of the geometry; (3) geomcheck at sample points on the LIKE
+deck.  No known finding is open for C15.'''
 import json
 import random
 import re
